@@ -190,7 +190,9 @@ fn run_cfg_case(kind: &str, v: u64) -> (String, String) {
         }
         "server_chunk" | "client_chunk" | "server_window" | "client_window" | "server_bandwidth" | "client_buffer" | "fms_version_len" | "flash_version_len" | "tc_url_len" | "app_len" | "key_len" => {
             let mut sc = default_scenario(v % 2 == 0);
-            if thorough_modes() { sc.modes = vec![sc.modes[0], !sc.modes[0]]; }
+            // chunk sizes: two activities on the connection (publish, stop, play or the reverse), so that a size that is
+            // forgotten or re-announced wrongly when an activity ends is noticed
+            if thorough_modes() || kind.ends_with("_chunk") { sc.modes = vec![sc.modes[0], !sc.modes[0], sc.modes[0]]; }
             let mut scfg = ServerSessionConfig::new();
             let mut ccfg = ClientSessionConfig::new();
             match kind {
@@ -402,6 +404,10 @@ pub fn run(run: &Run) {
     let win_vals: Vec<u64> = vec![0, 1, 2, 0x8000_0000, 0xFFFF_FFFF];
     let len_vals: Vec<u64> = vec![0, 1, 14, 65_000, 65_535, 65_536];
     let mut cases: Vec<(String, u64)> = Vec::new();
+    // the deserializer takes a usize: values beyond the u32 range must be refused, not narrowed
+    for v in [1u64 << 32, (1u64 << 32) + 1, (1u64 << 32) + 4096, (1u64 << 32) + (1u64 << 31), (1u64 << 40) + 128, u64::MAX] {
+        cases.push(("de_chunk".to_string(), v));
+    }
     for k in ["ser_chunk", "ser_chunk_after_3", "ser_chunk_after_5000", "de_chunk", "server_chunk", "client_chunk", "peer_chunk_to_server", "peer_chunk_to_client"] {
         for &v in chunk_vals.iter() {
             cases.push((k.to_string(), v));
